@@ -946,6 +946,25 @@ func objectArith(L *LState, opcode int, lhs, rhs LValue) LValue {
 	case OP_POW:
 		event = "__pow"
 	}
+	// operands that are numbers or convertible strings are computed
+	// directly; a metamethod is looked for only otherwise, and it receives
+	// the original operands
+	nlhs, nrhs := lhs, rhs
+	if str, ok := lhs.(LString); ok {
+		if lnum, err := parseNumber(string(str)); err == nil {
+			nlhs = lnum
+		}
+	}
+	if str, ok := rhs.(LString); ok {
+		if rnum, err := parseNumber(string(str)); err == nil {
+			nrhs = rnum
+		}
+	}
+	if v1, ok1 := nlhs.(LNumber); ok1 {
+		if v2, ok2 := nrhs.(LNumber); ok2 {
+			return numberArith(L, opcode, LNumber(v1), LNumber(v2))
+		}
+	}
 	op := L.metaOp2(lhs, rhs, event)
 	if _, ok := op.(*LFunction); ok {
 		L.reg.Push(op)
@@ -954,21 +973,7 @@ func objectArith(L *LState, opcode int, lhs, rhs LValue) LValue {
 		L.Call(2, 1)
 		return L.reg.Pop()
 	}
-	if str, ok := lhs.(LString); ok {
-		if lnum, err := parseNumber(string(str)); err == nil {
-			lhs = lnum
-		}
-	}
-	if str, ok := rhs.(LString); ok {
-		if rnum, err := parseNumber(string(str)); err == nil {
-			rhs = rnum
-		}
-	}
-	if v1, ok1 := lhs.(LNumber); ok1 {
-		if v2, ok2 := rhs.(LNumber); ok2 {
-			return numberArith(L, opcode, LNumber(v1), LNumber(v2))
-		}
-	}
+	lhs, rhs = nlhs, nrhs
 	L.RaiseError(fmt.Sprintf("cannot perform %v operation between %v and %v",
 		strings.TrimLeft(event, "_"), lhs.Type().String(), rhs.Type().String()))
 
